@@ -41,6 +41,8 @@ class AppLog:
     def __init__(self, world):
         self.world = world
         self.events = []                 # (vtime, event, sid, arg)
+        self.steps = []                  # parallel to events: executor step number
+        self.step = 0
         self.connect_outcomes = collections.deque()   # ('ret', v) | ('raise',)
         self.fault = {'message': 0, 'disconnect': 0}
         self.environs = {}
@@ -51,6 +53,7 @@ class AppLog:
 
     def _connect(self, sid, environ):
         self.events.append((self.world.clock.now, 'connect', sid, None))
+        self.steps.append(self.step)
         self.environs[sid] = environ
         if self.on_event:
             self.on_event('connect', sid, None)
@@ -72,6 +75,7 @@ class AppLog:
 
     def _message(self, sid, data):
         self.events.append((self.world.clock.now, 'message', sid, data))
+        self.steps.append(self.step)
         if self.on_event:
             self.on_event('message', sid, data)
         if self.fault['message'] > 0:
@@ -80,6 +84,7 @@ class AppLog:
 
     def _disconnect(self, sid, reason):
         self.events.append((self.world.clock.now, 'disconnect', sid, reason))
+        self.steps.append(self.step)
         if self.on_event:
             self.on_event('disconnect', sid, reason)
         if self.fault['disconnect'] > 0:
